@@ -8,9 +8,12 @@ Require Import List ZArith Bool Lia String. Import ListNotations.
 Require Import IW.CC.KvLocks.
 Local Open Scope string_scope.
 
-(* LOCK-CLASS-TABLE (parsed by checks/C07.py): class name, rank *)
+(* LOCK-CLASS-TABLE (parsed by checks/C07.py): class name, rank.
+   "thr" is the termination of a library thread (the checkpoint thread) seen as a lock: the thread holds it from its
+   start to its end and takes every other lock while holding it, pthread_join acquires it.  In the rank discipline it is
+   therefore the lowest class: whoever joins a thread must hold no lock at all that the thread may still ask for. *)
 Definition lock_classes : list (string * nat) :=
-  [("wk", 0); ("store", 1); ("db", 2); ("fsm", 3); ("exf", 4); ("wal", 5); ("spin", 6)].
+  [("thr", 0); ("wk", 1); ("store", 2); ("db", 3); ("fsm", 4); ("exf", 5); ("wal", 6); ("spin", 7)].
 
 Inductive act := Acq (r : req) | Rel (l : lock).
 Record dthread := { dheld : list req; dprog : list act }.
